@@ -245,6 +245,9 @@ impl Mut {
         let slot = self.idx.min(ALLOC_IN_FLIGHT.len() - 1);
         ALLOC_DESC[slot].store(((size as u64).min((1 << 56) - 1) << 8) | (sem as u64) << 4 | opts.map(|o| 8 | (o.allow_overcommit as u64) | (o.at_safepoint as u64) << 1 | (o.allow_oom_call as u64) << 2).unwrap_or(0), Ordering::Relaxed);
         ALLOC_IN_FLIGHT[slot].store(1 + blocked_count(), Ordering::SeqCst);
+        if size >= (1 << 20) && std::env::var_os("VERIF_DEBUG_ALLOC").is_some() {
+            eprintln!("ALLOC size={} align={} sem={} opts={:?} used={}", size, align, sem, opts, memory_manager::used_bytes(w.mmtk));
+        }
         let addr = match opts {
             None => memory_manager::alloc(self.m(), size, align, offset, sem_of(sem)),
             Some(o) => memory_manager::alloc_with_options(self.m(), size, align, offset, sem_of(sem), o),
@@ -254,11 +257,11 @@ impl Mut {
         w.counters.alloc_bytes.fetch_add(size as u64, Ordering::Relaxed);
         let obs = AllocObs { null: addr.is_zero(), ooms: oom_count() - o0, blocks: blocked_count() - b0, epoch_at_entry: e0, epoch_at_oom: OOM_EPOCH.with(|f| f.get()), epoch_at_return: world::current_epoch() };
         self.last_alloc = obs;
-        self.judge_alloc(size, sem, opts.unwrap_or_default(), opts.is_some(), &obs);
+        self.judge_alloc(size, align, sem, opts.unwrap_or_default(), opts.is_some(), &obs);
         addr
     }
 
-    fn judge_alloc(&self, size: usize, sem: u8, o: mmtk::util::alloc::AllocationOptions, with_options: bool, obs: &AllocObs) {
+    fn judge_alloc(&self, size: usize, align: usize, sem: u8, o: mmtk::util::alloc::AllocationOptions, with_options: bool, obs: &AllocObs) {
         let w = world();
         let heap = w.cfg.heap_mb << 20;
         let ctx = || format!("alloc{}(size={}, sem={}, {:?}) on plan {} (heap {} MiB): {:?}", if with_options { "_with_options" } else { "" }, size, sem, o, w.cfg.plan, w.cfg.heap_mb, obs);
@@ -275,8 +278,12 @@ impl Mut {
         }
         // larger than the whole heap: fails immediately; otherwise a collection must have been
         // completed for this request before out_of_memory is signalled
-        let larger_than_heap = size > heap + (1 << 20);
-        if obs.ooms > 0 && !larger_than_heap && size + (1 << 20) < heap && obs.epoch_at_oom == obs.epoch_at_entry {
+        // "larger than the maximum heap" is decided in pages; for page-multiple requests with the
+        // minimum alignment (no padding) the boundary is exact, otherwise a 1 MiB margin is left out
+        let exact = size % 4096 == 0 && align <= 8;
+        let larger_than_heap = if exact { size / 4096 > heap / 4096 } else { size > heap + (1 << 20) };
+        let clearly_fits = if exact { size / 4096 <= heap / 4096 } else { size + (1 << 20) < heap };
+        if obs.ooms > 0 && !larger_than_heap && clearly_fits && obs.epoch_at_oom == obs.epoch_at_entry {
             violation("C10", "oom-callback-without-a-collection-attempt", ctx());
         }
         if larger_than_heap && !obs.null {
@@ -1283,7 +1290,8 @@ impl Mut {
                 r.count("objects_retained_when_full", filled);
             });
             // ---- B: requests against the full heap --------------------------------------------------
-            let big = [heap + (8 << 20), heap * 4, 1usize << 40, 1usize << 46, usize::MAX / 2 & !7];
+            // exactly the heap size is not "larger than the heap": a collection must be attempted first
+            let big = [heap, heap + 4096, heap + (8 << 20), heap * 4, 1usize << 40, 1usize << 46, usize::MAX / 2 & !7];
             for combo in 0..8u32 {
                 let o = AllocationOptions { allow_overcommit: combo & 1 != 0, at_safepoint: combo & 2 != 0, allow_oom_call: combo & 4 != 0 };
                 self.alloc_opts = Some(o);
